@@ -27,6 +27,7 @@ POOLS = {
     "quick": [
         dict(nv=2, nu=2, maxnew=1, seqlen=2, expand_new=False),
         dict(nv=1, nu=2, maxnew=1, seqlen=3, expand_new=False),
+        dict(nv=2, nu=1, maxnew=0, seqlen=0, expand_new=False, twin=True),    # the two vertices carry the same uid
     ],
     "thorough": [
         dict(nv=2, nu=2, maxnew=1, seqlen=3, expand_new=False),
@@ -59,7 +60,7 @@ class Sys:
             for k in range(n):
                 w.u[0].add_vertex(w.v[k])
             return w
-        w = SWorld(self.spec["nv"], self.spec["nu"])
+        w = SWorld(self.spec["nv"], self.spec["nu"], twin=self.spec.get("twin", False))
         w.created = 0
         return w
 
